@@ -61,6 +61,7 @@ def run(chk: Check) -> None:
     run_section_application(chk, ix)
     run_section_aliasing(chk, ix)
     run_precedence_order(chk, ix)
+    run_cli_strict(chk, ix)
     O = options_attrs(ix)
     mopt = ix.module("mypy.options")
     mcfg = ix.module("mypy.config_parser")
@@ -436,3 +437,76 @@ def run_precedence_order(chk: Check, ix) -> None:
         r8.ok(key, aic.loc())
     else:
         r8.violation(key, aic.loc(), "inline `# mypy:` settings are no longer applied on top of the per-module options of this file")
+
+
+def run_cli_strict(chk: Check, ix) -> None:
+    """R17.9: the command line's --strict is applied whatever the config file said."""
+    from ..cfg import CFG, call_name, branch_conditions
+    r9 = chk.rule("R17.9", "process_options applies the command line's --strict (set_strict_flags) after the config file was read and before the command line is parsed over the options, on a condition that consults only the namespace of the first command-line parse: a condition that also consults what the config file did (the options object, a variable written by the callback handed to parse_config_file) lets a config-file value win over the command line", floor=3)
+    po = ix.func("mypy.main.process_options")
+    par = po.module.parents()
+    g = CFG(po.node)
+    # the callback handed to parse_config_file and the names it writes in the enclosing scope
+    cfg_calls = [c for c in ast.walk(po.node) if isinstance(c, ast.Call) and call_name(c) == "parse_config_file"]
+    if not cfg_calls:
+        raise AnalysisError("process_options: parse_config_file call not found")
+    nested = {n.name: n for n in ast.walk(po.node) if isinstance(n, ast.FunctionDef) and n is not po.node}
+    cb = [a.id for a in cfg_calls[0].args if isinstance(a, ast.Name) and a.id in nested]
+    if not cb:
+        raise AnalysisError("process_options: no local callback is handed to parse_config_file")
+    cbn = cb[0]
+    tainted = {norm(cfg_calls[0].args[0])} if cfg_calls[0].args else set()
+    for n in ast.walk(nested[cbn]):
+        if isinstance(n, ast.Nonlocal):
+            tainted |= set(n.names)
+    # the namespace of the first parse
+    first = [st for st in po.node.body if isinstance(st, ast.Expr) and isinstance(st.value, ast.Call) and call_name(st.value) == "parse_args" and len(st.value.args) == 2 and isinstance(st.value.args[1], ast.Name)]
+    if not first:
+        raise AnalysisError("process_options: the first parse_args(args, <namespace>) was not found")
+    ns = first[0].value.args[1].id
+    r9.ok(f"the first parse fills `{ns}`; the config phase can write {sorted(tainted)}", po.loc(first[0]))
+    direct = [c for c in ast.walk(po.node) if isinstance(c, ast.Call) and isinstance(c.func, ast.Name) and c.func.id == cbn and not any(c is x for x in ast.walk(nested[cbn]))]
+    key = "the command-line strict step exists between the config file and the final parse"
+    cfgn = [n for n in g.nodes if any(c is cfg_calls[0] for c in n.calls())]
+    if not direct:
+        r9.violation(key, po.loc(cfg_calls[0]), f"{cbn}() is never called for the command line: --strict on the command line has no effect")
+        return
+    dn = [n for n in g.nodes if any(c is direct[0] for c in n.calls())]
+    if cfgn and dn and dn[0] in g.reachable(cfgn, labels_excluded=("exc",)) and cfgn[0] not in g.reachable(dn, labels_excluded=("exc",)):
+        r9.ok(key, po.loc(direct[0]))
+    else:
+        r9.violation(key, po.loc(direct[0]), "the command-line strict step runs before the config file is read: explicit config-file keys then override --strict")
+    finals = [n for n in g.nodes if any(call_name(c) == "parse_args" and any(isinstance(a, ast.Call) and call_name(a) == "SplitNamespace" for a in c.args) for c in n.calls())]
+    key = "the command-line strict step runs before the command line is parsed over the options"
+    if finals and dn and finals[0] in g.reachable(dn, labels_excluded=("exc",)) and dn[0] not in g.reachable(finals, labels_excluded=("exc",)):
+        r9.ok(key, po.loc(direct[0]))
+    else:
+        r9.violation(key, po.loc(direct[0]), "--strict is applied after the explicit command-line flags were stored: `--strict --allow-untyped-defs` can no longer relax a strict flag")
+    for c in direct:
+        st = c
+        while not isinstance(st, ast.stmt):
+            st = par[st]
+        pos, neg = branch_conditions(par, po.node, st, early_exits=True)
+        names: set[str] = set()
+        for t in pos + neg:
+            names |= {n.id for n in ast.walk(t) if isinstance(n, ast.Name)}
+        # a test on a local stands for what the local was computed from
+        grow = True
+        while grow:
+            grow = False
+            for a in po.node.body:
+                if isinstance(a, ast.Assign) and any(isinstance(t, ast.Name) and t.id in names for t in a.targets):
+                    more = {n.id for n in ast.walk(a.value) if isinstance(n, ast.Name)} - names
+                    if more:
+                        names |= more
+                        grow = True
+        key = f"{cbn}() for the command line is conditional only on the command-line namespace `{ns}`"
+        bad = sorted(names & tainted)
+        if bad:
+            r9.violation(key, po.loc(c), f"the condition consults {bad}, which the config file phase writes: with strict already set by the config file (and a strict flag relaxed by an explicit key of the same section) the command line's --strict is skipped and the config value wins")
+        elif ns not in names:
+            r9.violation(key, po.loc(c), f"the condition does not consult `{ns}`: strict flags are set (or not) regardless of the command line")
+        elif neg:
+            r9.violation(key, po.loc(c), f"the step is taken when `{norm(neg[0])}` is false")
+        else:
+            r9.ok(key, po.loc(c), "guard: " + " and ".join(norm(t) for t in pos))
